@@ -1,6 +1,6 @@
 """C03 — range tests flag by inclusive interval membership, fail before suspect."""
 from .. import cases
-from .common import run_tables
+from .common import run_carrier_sweep, run_tables
 
 
 def run(ck):
@@ -13,5 +13,6 @@ def run(ck):
         'semantics, float rounding.')
     run_tables(ck, 'C03.gross', cases.gross_range, scope='all')
     run_tables(ck, 'C03.valid', cases.valid_range, scope='all')
+    run_carrier_sweep(ck, 'C03.gross', cases.gross_range, time=False, n_max=2)
     ck.floor('C03.gross.table', 50)
     ck.floor('C03.valid.table', 50)
